@@ -52,7 +52,7 @@ func Child(seed int64, tier, stateFile string, rounds int, saveMs int, compress 
 	trusted := map[refchain.Hash]bool{}
 	chain.TrustedTxChecker = func(tx *btc.Tx) bool {
 		var h refchain.Hash
-		copy(h[:], tx.Hash.Hash[:])
+		copy(h[:], tx.WTxID().Hash[:]) // by wtxid, as the client's checker does: a witness that differs is not what was verified
 		trustMu.Lock()
 		defer trustMu.Unlock()
 		return trusted[h]
@@ -482,7 +482,7 @@ func Child(seed int64, tier, stateFile string, rounds int, saveMs int, compress 
 					fam3 = "vouched-tx/unknown-input-behind-it"
 				}
 				trustMu.Lock()
-				trusted[t.TxID()] = true
+				trusted[t.WTxID()] = true
 				trustMu.Unlock()
 				if _, ok := offer(g.Build(chainsim.BlockSpec{Parent: s.Ref.Tip, Txs: txs3, Fees: fees3}), fam3); !ok {
 					return
